@@ -2,4 +2,5 @@ import ArroyProofs.AuditCmd
 import ArroyProofs.Properties.C15
 import ArroyProofs.Properties.C15Build
 import ArroyProofs.Properties.Unconditional
+import ArroyProofs.Properties.C15History
 #audit Arroy.C15
